@@ -157,6 +157,10 @@ var c19TagArg = []string{
 	"«T assign v = 'w' «t«T xecho «O v | append: s «o and «O arr | join: '+' «o «t",
 	// the shortest tags there are, also as the last bytes of the source (shorter than a long object delimiter)
 	"x«Tz«t", "«Tz«t", "«O n «o«T-z-«t", "a «Tz -«t",
+	// the shortest objects there are as the whole argument (with one-character delimiters three or four bytes)
+	"«T xecho «On«o «t|«T xecho «Os«o«t|«T xwrap «On«o «tb«T endxwrap «t|«T xecho «On«o«On«o «t",
+	// a line break, a tab or a form feed before the closing delimiter is no part of the argument either
+	"«T xinfo a b\n«t|«T xecho «O n «o\n«t|«T xecho x\t«t|«T xinfo (a)\r\n«t|«T xinfo q\f«t|«T xinfo a\n-«t  |",
 }
 
 func c19Spell(tpl string, q [4]string) string {
@@ -212,7 +216,8 @@ func runC19(c *core.Ctx) {
 			if strings.ContainsAny(ch, "«\x00") || ch[0] >= 0x80 {
 				continue
 			}
-			cases = append(cases, "«T xinfo a"+ch+" «t|«T xecho b"+ch+" «t|«T xinfo ("+ch+") -«t  |«T xecho «O n «o"+ch+" «t|", "«T xecho «O n «o «t|«T xecho «O n «o -«t z")
+			cases = append(cases, "«T xinfo a"+ch+" «t|«T xecho b"+ch+" «t|«T xinfo ("+ch+") -«t  |«T xecho «O n «o"+ch+" «t|", "«T xecho «O n «o «t|«T xecho «O n «o -«t z",
+				"«T xinfo a"+ch+"\n«t|«T xecho b"+ch+"\r\n«t|«T xinfo ("+ch+")\n-«t  |«T xecho «O n «o"+ch+"\t\n«t|")
 		}
 		for _, tpl := range cases {
 			src, rs := c19Spell(tpl, ref.DefaultDelims), c19Spell(tpl, q)
